@@ -191,6 +191,19 @@ func (k *Conn) Closed() bool {
 	return k.closed
 }
 
+// Reading reports whether the broker is blocked in Read waiting for client bytes.
+func (k *Conn) Reading() bool {
+	k.mu.Lock()
+	defer k.mu.Unlock()
+	if !k.reading || len(k.in) > 0 || k.clientClosed || k.closed {
+		return false
+	}
+	if k.armed && k.clk.Now() >= k.deadline {
+		return false // a time-out is about to be delivered
+	}
+	return true
+}
+
 // Pending reports whether the broker has unread client bytes.
 func (k *Conn) Pending() int {
 	k.mu.Lock()
